@@ -14,7 +14,8 @@ the SAME table.  In this module, on top of those:
 
 * names of locals are never significant (operator list, integer array, scalars, loop variables, file handle, `max_param`,
   `param_list`); scalars are tracked SSA-style through straight-line code (hoisted temporaries, re-assignment, `x += e`);
-* helper inlining (N1), loop+append -> comprehension with guard inversion (N2), De Morgan / double negation / `!=` vs
+* helper inlining (N1; N1b: a one-expression predicate nested in `aifeyn_complexity` as `def` or `lambda`, e.g.
+  `def is_integer(lab): return lab.lstrip("-").isdigit()`, is beta-reduced at its call sites), loop+append -> comprehension with guard inversion (N2), De Morgan / double negation / `!=` vs
   `not ==` / `if A if B` in label conditions (N3; emitted in negation normal form, conjuncts in evaluation order);
 * `int(a != b)`, `1 if a != b else 0`, a Boolean `b = (a != b)` used arithmetically, `if b: x += k`, `x = 0; if b: x = k`,
   `if b: x = 1 else: x = 0` all denote the indicator `.neInd` (times `k`);
@@ -27,7 +28,9 @@ the SAME table.  In this module, on top of those:
   string templates (N6) under the DECLARED types `dirname: str`, `compl: int`, `j: int` (from `range`); merged or split
   `if rank == 0:` blocks; `for i, s in enumerate(shapes)`.
 * `call_sites`: the argument expressions of every `aifeyn_complexity` call in `single_function` / `tree_to_aifeyn`,
-  resolved by forward symbolic evaluation (N7) and classified as one of two parameter rules.
+  resolved by forward symbolic evaluation (N7) and classified as one of two parameter rules; a private straight-line
+  helper that builds the function string from the labels is replaced by its value expression first (N1c), and the name
+  template `'a%i' % j` may be spelt as f-string, concatenation with `str(j)` or `'a{}'.format(j)` (N6).
 """
 import ast, re, copy
 import extract
@@ -596,7 +599,7 @@ def _param_rule(P, L, B):
 
 
 def _call_site(fn, module):
-    fn = N.loops_to_comps(N.inline_helpers(fn, module))
+    fn = N.loops_to_comps(N.inline_helpers(fn, module, value_level=True))
     params = [a.arg for a in fn.args.args]
     if len(params) < 2:
         raise ExtractError("%s: signature" % fn.name)
